@@ -16,7 +16,7 @@ struct It { HashtableIterator<BadKey,uint32> * it; bool back; std::vector<uint64
 static int bad=0; static std::map<uint32,uint32> gen;
 static void audit(HT & t, Model & m, const char * where){ if (t.GetNumItems()!=m.v.size()) {bad=1; printf("SIZE mismatch %u vs %zu after %s\n", t.GetNumItems(), m.v.size(), where); return;} size_t i=0; for (HashtableIterator<BadKey,uint32> it(t, HTIT_FLAG_NOREGISTER); it.HasData(); it++,i++) { if (i>=m.v.size()||it.GetKey().v!=m.v[i].first||it.GetValue()!=m.v[i].second) {bad=1; printf("ORDER mismatch at %zu after %s\n", i, where); return;} } i=m.v.size(); for (HashtableIterator<BadKey,uint32> it(t, HTIT_FLAG_NOREGISTER|HTIT_FLAG_BACKWARDS); it.HasData(); it++) { i--; if (it.GetKey().v!=m.v[i].first) {bad=1; printf("BACK ORDER mismatch after %s\n", where); return;} } }
 int main(int argc,char**argv){ CompleteSetupSystem css; uint64_t seed=argc>1?strtoull(argv[1],0,0):1; long nops=argc>2?atol(argv[2]):200000; uint32 keyspace=argc>3?atoi(argv[3]):40; rs=seed;
-  HT * t = new HT; Model m; std::vector<It> its; long travs=0, yields=0, auditcnt=0;
+  size_t maxpop=0; HT * t = new HT; Model m; std::vector<It> its; long travs=0, yields=0, auditcnt=0;
   for (long op=0; op<nops && !bad; op++) { int o=R(100); uint32 k=R(keyspace), k2=R(keyspace), val=(uint32)rnd(); char where[64]; bool reorder=false; std::set<uint32> removed;
      if (o<30) { int i=m.find(k); if (i>=0) m.v[i].second=val; else {m.v.push_back({k,val}); gen[k]++;} if (t->Put(BadKey(k),val).IsError()) bad=1; sprintf(where,"Put %u",k);} 
      else if (o<45) { int i=m.find(k); status_t r=t->Remove(BadKey(k)); if ((i>=0)!=r.IsOK()) {bad=1; printf("Remove status mismatch\n");} if (i>=0) {m.v.erase(m.v.begin()+i); removed.insert(k);} sprintf(where,"Remove %u",k);} 
@@ -29,7 +29,7 @@ int main(int argc,char**argv){ CompleteSetupSystem css; uint64_t seed=argc>1?str
      else if (o<67) { if (t->RemoveLast().IsOK()!=(!m.v.empty())) bad=1; if(!m.v.empty()){removed.insert(m.v.back().first); m.v.pop_back();} sprintf(where,"RemoveLast");} 
      else if (o<69) { (void)t->EnsureSize(m.v.size()+R(300), R(2)); sprintf(where,"EnsureSize");} 
      else if (o<70) { (void)t->ShrinkToFit(); sprintf(where,"ShrinkToFit");} 
-     else if (o<71 && R(4)==0) { for(auto&e:m.v) removed.insert(e.first); t->Clear(R(2)); m.v.clear(); sprintf(where,"Clear");} 
+     else if (o<71 && R(4)==0 && !getenv("NOCLEAR")) { for(auto&e:m.v) removed.insert(e.first); t->Clear(R(2)); m.v.clear(); sprintf(where,"Clear");} 
      else if (o<74) { const uint32 * v=t->Get(BadKey(k)); int i=m.find(k); if ((v!=NULL)!=(i>=0) || (v && *v!=m.v[i].second)) {bad=1; printf("Get mismatch\n");} sprintf(where,"Get");} 
      else if (o<76 && its.size()<5) { It x; x.back=R(2); x.it = new HashtableIterator<BadKey,uint32>(*t, x.back?HTIT_FLAG_BACKWARDS:0); x.reordered=false; x.done=false; for(auto&e:m.v) x.presentThroughoutAhead.insert(e.first); if (x.it->HasData()) { x.yielded.push_back(((uint64_t)gen[x.it->GetKey().v]<<32)|x.it->GetKey().v); } its.push_back(x); travs++; sprintf(where,"NewIter");} 
      else if (!its.empty()) { // advance a random iterator
@@ -38,9 +38,10 @@ int main(int argc,char**argv){ CompleteSetupSystem css; uint64_t seed=argc>1?str
         sprintf(where,"Advance"); }
      else sprintf(where,"noop");
      for (auto & x : its) { if (reorder) x.reordered=true; for (uint32 r : removed) x.presentThroughoutAhead.erase(r); }
-     if (m.v.size()<300 || R(200)==0) {audit(*t,m,where); auditcnt++;}
+     if (m.v.size()>maxpop) maxpop=m.v.size();
+     if (m.v.size()<300 || R(m.v.size()>5000?20000:200)==0) {audit(*t,m,where); auditcnt++;}
      if (R(5000)==0) { // destroy table with live iterators
         delete t; for (auto & x : its) { if (x.it->HasData()) { (void)x.it->GetKey().v; (*x.it)++; } if (x.it->HasData()) {bad=1; printf("iterator still has data after table destroyed and one advance\n");} delete x.it; } its.clear(); t=new HT; m.v.clear(); }
   }
   for (auto&x:its) delete x.it; delete t;
-  printf("done ops=%ld traversals=%ld yields=%ld audits=%ld bad=%d\n", nops, travs, yields, auditcnt, bad); return bad; }
+  printf("maxPopulation=%zu ",maxpop); printf("done ops=%ld traversals=%ld yields=%ld audits=%ld bad=%d\n", nops, travs, yields, auditcnt, bad); return bad; }
